@@ -624,15 +624,22 @@ func init() {
 					rs = append(rs, HRun{Pkg: "./shovel", Fn: "ZZ_C20_Load", Params: []int{m[0], m[1], sm}, MaxPaths: 400000})
 				}
 			}
+			// schedule half: Run / Restart / runTask under the engine's scheduler
+			rs = append(rs, HRun{Pkg: "./shovel", Fn: "ZZ_C20_Restart", Params: []int{0, 1, 60}, MaxPaths: 400000})
+			if tier == "thorough" {
+				rs = append(rs, HRun{Pkg: "./shovel", Fn: "ZZ_C20_Restart", Params: []int{1, 1, 45}, MaxPaths: 400000},
+					HRun{Pkg: "./shovel", Fn: "ZZ_C20_Restart", Params: []int{0, 2, 60}, MaxPaths: 400000})
+			}
 			return rs
 		},
 		Assumptions: []string{
-			"CONFIGURATION HALF ONLY (task list = enabled integrations x referenced sources, file wins a name clash, unknown source is a startup error, each task carries its source's settings and the reference's start/stop, context names equal the task's names). The SCHEDULE half of the property (Run/Restart: previous generation stopped, one runner per pair) is not covered by this check: it needs a scheduler-aware encoding of goroutines, channels and sync.WaitGroup that was not built; see DESIGN.md C20",
+			"configuration half (ZZ_C20_Load): task list = enabled integrations x referenced sources, file wins a name clash, unknown source is a startup error, each task carries its source's settings and the reference's start/stop, context names equal the task's names",
+			"schedule half (ZZ_C20_Restart): the real Manager.Run/Restart/runTask with real tasks (loadTasks, Converge against the Postgres model and the honest node) run under the engine's scheduler: goroutines become engine threads, every synchronisation operation (mutex, channel send/receive/close, select, WaitGroup, sleep, goroutine start/end) is a scheduling point, the choice of the next runnable thread is an enumerated decision bounded by a preemption budget (0 quick, 1 thorough) and a bound on scheduling points per path (paths reaching it are cut, not counted as held); one restart is requested while the first generation runs; after Restart returns no task of the previous generation may issue a source call, the manager holds new tasks, no deadlock, no goroutine panic. Overlapping restarts and a restart during the first loadTasks are not explored; the background head pollers are cut",
 			"the two database readers config.Integrations / config.Sources are cut (engine redirect, native rename) and return the symbolic lists; pgp.Exec of NewTask, jrpc2.MustURL and gzhttp.Transport are cut",
 			"integration names over {a,b}, enabled flags, 1-2 source references over {s1,s2,missing}, source placement (file/db/clash) are case-split; batch size, start, stop, chain id are solver variables; an integration does not list the same source twice; names are distinct within the file and within the table",
 		},
 		Bounds:  map[string]string{"quick": "(file, db) integration counts in {(1,0),(0,1),(1,1),(2,0),(0,2)} x 3 source placements", "thorough": "adds (2,1),(1,2),(2,2)"},
-		Outside: []string{"Manager.Run / Restart / runTask schedules", "compiled integrations"},
+		Outside: []string{"schedules beyond the preemption budget and the scheduling-point bound", "two overlapping Restart calls", "compiled integrations"},
 	})
 }
 
